@@ -158,7 +158,8 @@ def gen_workload(w, families=("json", "json", "json", "yaml", "xml", "xml", "csv
     else:  # csv: rows of string cells
         rows = w.randint(1, 4)
         cols = w.randint(1, 4)
-        a = [[w.choice(["a", "b", "ab", "1", "2", "", "x y"]) for _ in range(cols)] for _ in range(rows)]
+        a = [[w.choice(["a", "b", "ab", "1", "2", "", "x y", "a\u2028b", "f\x0cf"]) for _ in range(cols)]
+             for _ in range(rows)]
         b = gen.mutate(w, a, intensity=2) if rel < 0.8 else a
         b = [[str(c) if not isinstance(c, (list, dict)) else "z" for c in row] if isinstance(row, list) else ["q"]
              for row in (b if isinstance(b, list) else [["q"]])]
